@@ -840,6 +840,17 @@ class Interp:
         ctx = self.ctx
         if hasattr(b, "slice"):
             return b.slice(self, sl, node)
+        if isinstance(b, VStr) and sl.step is None:
+            n = z3.Length(b.t)
+
+            def idx(e, default):
+                if e is None:
+                    return default
+                v = ctx.deref(self.eval(e)).t
+                v = z3.If(v < 0, n + v, v)
+                return z3.If(v < 0, 0, z3.If(v > n, n, v))
+            lo, hi = idx(sl.lower, z3.IntVal(0)), idx(sl.upper, n)
+            return VStr(z3.SubString(b.t, lo, z3.If(hi > lo, hi - lo, 0)))
         if isinstance(b, VList) and sl.step is None:
             lo = ctx.deref(self.eval(sl.lower)).t if sl.lower is not None else z3.IntVal(0)
             if sl.upper is not None:
@@ -1527,8 +1538,16 @@ def _str_format(ctx, it, obj, o, args, kw):
     return VPy("<formatted>")
 
 
+def _str_endswith(ctx, it, obj, o, args, kw):
+    p = ctx.deref(args[0])
+    if isinstance(p, VPy):
+        p = VStr(p.py)
+    return VBool(z3.SuffixOf(p.t, o.t))
+
+
 CONTAINER_METHODS.update({
     ("VStr", "startswith"): _str_startswith,
+    ("VStr", "endswith"): _str_endswith,
 })
 
 
